@@ -26,8 +26,15 @@ def check(F, rep):
     rep.undecided("equality of the resolved value with the published one (values; URL/address parser semantics)")
 
     # ---- writer table
-    w = get_fn(F, rep, EI + "endpoint_info_to_attrs")
-    sw = enum_switches(F, w, TA)
+    w0 = get_fn(F, rep, EI + "endpoint_info_to_attrs")
+    # the match may sit in the function itself or in a closure / helper it hands the addresses to
+    wcands = [(g, enum_switches(F, g, TA)) for g in tree_with_helpers(F, w0)]
+    wcands = [(g, sw_) for g, sw_ in wcands if sw_]
+    w = w0
+    sw = []
+    if len(wcands) == 1:
+        w, sw = wcands[0]
+        rep.fn(w)
     wtab = {}
     if len(sw) == 1:
         b, pl, arms, other = sw[0]
@@ -38,7 +45,7 @@ def check(F, rep):
     else:
         rep.missing("table_agreement", "switch on TransportAddr in endpoint_info_to_attrs (%d)" % len(sw))
     rep.ob("table_agreement", bool(wtab) and all(len(k) == 1 for k in wtab.values()), site(w), "writer maps each handled TransportAddr variant to exactly one key: %s" % {k: sorted(v) for k, v in wtab.items()}, EI + "writer|single-key")
-    ud_w = [rv for _, _, rv in aggregates_in(w, w.reachable(0), ATTR) if rv["variant"] == "UserData"]
+    ud_w = [rv for g in tree_with_helpers(F, w0) for _, _, rv in aggregates_in(g, g.reachable(0), ATTR) if rv["variant"] == "UserData"]
     # ---- reader table
     r = get_fn(F, rep, EI + "endpoint_info_from_attrs")
     rdu = defuse(r)
@@ -64,6 +71,13 @@ def check(F, rep):
                             rep.fn(g)
                             built |= {rv["variant"] for _, _, rv in aggregates_in(g, g.reachable(0), TA)}
                             parsers |= {n for _, x in g.calls() for n in callee_names(x) if n.endswith("from_str") or n.endswith("::parse")}
+        # a named fn handed to the adapter instead of a closure
+        for cb, ct in r.calls():
+            if len(ct["args"]) >= 2 and ct["args"][1]["k"] == "const" and ct["args"][1].get("fn") and op_base(ct["args"][0]) is not None and t["dest"]["l"] in rdu.closure(op_base(ct["args"][0])):
+                for g in F.fns_named(norm(ct["args"][1]["fn"])):
+                    rep.fn(g)
+                    built |= {rv["variant"] for _, _, rv in aggregates_in(g, g.reachable(0), TA)}
+                    parsers |= {n for _, x in g.calls() for n in callee_names(x) if n.endswith("from_str") or n.endswith("::parse")}
         rtab[key] = built
         if key == "UserData":
             ud_parsers = parsers
